@@ -1,11 +1,13 @@
 """C17 -- summary counts, run statistics and the JUnit report all tell the same story.
 
 Theorems: Properties/C17.v about Model/Junit.v (RunStats::on_test_finished / on_setup_script_finished,
-ExecutionStatuses::describe, MetadataJunit::write_event, the summary line). Correspondence: real
+ExecutionStatuses::describe, MetadataJunit::write_event, the summary line, the xml_safe / XmlString::new
+text pipeline), linked to Model/Result.v and Model/Dispatcher.v by Proofs/JunitLink.v. Correspondence: real
 nextest runs over the scripted puppet workspace with JUnit enabled; the event tap (hook H1) of each
 run is fed to the Coq model (vm_compute) and the model's report / statistics / summary tokens / exit
 code are diffed against the JUnit file (strict XML parser), the RunFinished statistics, the summary
-line on stderr and the process exit status. Oracle: the property's clauses evaluated in plain Python
+line on stderr, the process exit status and (corr:stored-text) the text of every stored system-out of
+the text-carrying runs. Oracle: the property's clauses evaluated in plain Python
 on what the implementation produced, using the configuration (not the event flags) for the
 stored-output clause and the scenario for the selected set."""
 import copy, json, os, re, shutil, signal, stat, threading, time
@@ -139,7 +141,7 @@ def plan_attempts(kind, retries, r):
     return [kind] * total
 
 
-def gen_scenario(r, idx, family="mixed"):
+def gen_scenario(r, idx, family="mixed", force_signal=False):
     retries = r.choice([0, 0, 1, 2])
     ss, sf = r.choice([(True, True), (True, False), (False, True), (False, False)])
     fail_fast = r.random() < 0.3
@@ -187,10 +189,43 @@ def gen_scenario(r, idx, family="mixed"):
             sss, ssf = r.choice([(True, True), (True, False), (False, True), (False, False), (None, None)])
             scripts.append({"id": f"s{j}_{idx}", "kind": sk, "ss": sss, "sf": ssf,
                             "capture": r.random() < 0.5})
-    return finish_scenario(dict(idx=idx, family=family, retries=retries, ss=ss, sf=sf, fail_fast=fail_fast,
-                                tests=tests, bin_tests=bin_tests, overrides=overrides, scripts=scripts,
-                                threads=r.choice([1, 2, 4]),
-                                double_spawn=not (scripts and r.random() < 0.5)))
+    sc = dict(idx=idx, family=family, retries=retries, ss=ss, sf=sf, fail_fast=fail_fast,
+              tests=tests, bin_tests=bin_tests, overrides=overrides, scripts=scripts,
+              threads=r.choice([1, 2, 4]),
+              double_spawn=not (scripts and r.random() < 0.5))
+    if family == "mixed" and (r.random() < SIGNAL_P or force_signal):
+        add_signal(sc, r)
+    return finish_scenario(sc)
+
+
+SIGNAL_P = 0.12
+
+
+def add_signal(sc, r):
+    """a run cancelled by a shutdown signal sent to nextest at a random point: SIGINT or SIGTERM once, or
+    twice (the second one makes nextest kill what is still running). Every attempt gets a reaction to the
+    signal nextest forwards to it: exit 0 (a pass), exit 1, die of the signal, or ignore it (killed after
+    the grace period); some passing attempts are lengthened so that the signal finds them running."""
+    variant = r.choice(["int", "term", "term", "int", "double"])
+    signo = int(signal.SIGINT if variant == "int" else signal.SIGTERM if variant == "term"
+                else r.choice([signal.SIGINT, signal.SIGTERM]))
+    after = r.choice(["RunStarted", "TestStarted", "TestStarted", "TestFinished"])
+    sc["signal_on"] = (after, round(r.uniform(0.0, 0.35), 3), signo)
+    if variant == "double":
+        sc["signal_again"] = (round(r.uniform(0.01, 0.12), 3), int(r.choice([signal.SIGINT, signal.SIGTERM])))
+    sc["signal_variant"] = variant
+    for b in sc["bin_tests"].values():
+        for t in b.values():
+            for beh in t.get("attempts", []):
+                if not beh:
+                    continue
+                react = r.choice(["exit0", "exit0", "exit1", "die", "ignore"])
+                if "on_term" not in beh:
+                    beh["on_term"] = {"exit0": "exit", "exit1": "exit"}.get(react, react)
+                    if react == "exit0":
+                        beh["term_exit"] = 0
+                if beh.get("exit") == 0 and "sleep" not in beh and "child" not in beh:
+                    beh["sleep"] = r.choice([0, 0.2, 0.5, 0.5, 1.0])
 
 
 def toml_str(s):
@@ -365,6 +400,15 @@ def run_one(rig, sc, timeout=90):
                 seen[0] = time.monotonic()
             return seen[0] is not None and time.monotonic() >= seen[0] + delay
         signals = [(sig_trigger, signo)]
+        if sc.get("signal_again"):
+            delay2, signo2 = sc["signal_again"]
+            sent_at = [None]
+
+            def again(ctx):
+                if sent_at[0] is None:
+                    sent_at[0] = time.monotonic()   # first polled right after the first signal was sent
+                return time.monotonic() >= sent_at[0] + delay2
+            signals.append((again, signo2))
     if not sc.get("double_spawn", True):
         # without the launcher an unspawnable test / script is an execution failure (with it: exit 70, FAIL)
         env_extra["NEXTEST_DOUBLE_SPAWN"] = "0"
@@ -379,7 +423,8 @@ def run_one(rig, sc, timeout=90):
     shutil.rmtree(os.path.dirname(jp), ignore_errors=True)
     if sab_dir:
         shutil.rmtree(sab_dir, ignore_errors=True)
-    out = dict(rc=res["rc"], stderr=res["stderr"], tap=res["tap"], junit=junit, timed_out=res["timed_out"])
+    out = dict(rc=res["rc"], stderr=res["stderr"], tap=res["tap"], junit=junit, timed_out=res["timed_out"],
+               sent=[(round(t - res["t0"], 3), sg) for t, sg in res["sent"]], wall=round(res["wall"], 3))
     rig.cleanup(res)
     return out
 
@@ -932,6 +977,7 @@ def impl_digest(o, rep):
     rf = [e["stats"] for e in o["tap"] if e.get("kind") == "RunFinished"]
     summ = [l for l in o["stderr"].splitlines() if "Summary [" in l]
     return dict(rc=o["rc"], summary=summ, run_finished=rf[-1] if rf else None, finished=fins,
+                signals_sent=o.get("sent"), wall=o.get("wall"),
                 junit=None if rep is None else [dict(name=s["name"], attrs=s["attrs"], cases=[
                     {k: v for k, v in c.items() if k != "out"} for c in s["cases"]]) for s in rep["suites"]],
                 stderr_tail=o["stderr"][-600:] if not rf else None)
@@ -956,6 +1002,12 @@ def histogram(chk, sc, o, rep):
             chk.count(f"cancelled_{e.get('reason')}")
         elif e.get("kind") == "TestSkipped":
             chk.count("skipped_tests")
+    if sc.get("signal_on") and sc["family"] == "mixed":
+        chk.count(f"signal_variant_{sc['signal_variant']}")
+        chk.count(f"signals_delivered_{len(o.get('sent', []))}")
+        fin = sum(1 for e in o["tap"] if e.get("kind") == "TestFinished")
+        sel = sum(1 for t in sc["tests"] if t.get("selected"))
+        chk.count("signal_runs_all_finished" if fin == sel else "signal_runs_cut_short")
     chk.count(f"store_flags_{int(sc['ss'])}{int(sc['sf'])}")
     chk.count(f"retries_{sc['retries']}")
     chk.count(f"exit_{o['rc']}")
@@ -997,6 +1049,9 @@ def run(tier, seed):
     for _ in range(n_mixed):
         scs.append(gen_scenario(r, idx, "mixed"))
         idx += 1
+    for _ in range(8 if thorough else 2):     # at least this many cancelled-by-signal runs whatever the seed
+        scs.append(gen_scenario(r, idx, "mixed", force_signal=True))
+        idx += 1
     for _ in range(n_hostile):
         scs.append(gen_scenario(r, idx, "hostile"))
         idx += 1
@@ -1021,21 +1076,25 @@ def run(tier, seed):
                                       scripts=[(s["id"], s["kind"]) for s in sc["scripts"]]),
                         summary=[l.strip() for l in o["stderr"].splitlines() if "Summary [" in l], rc=o["rc"]))
     chk.assumptions = [
-        "the model consumes the emitted event stream (hook H1 tap); the dispatcher that produces it is C01/C02/C10's model",
+        "the model consumes the emitted event stream (hook H1 tap); that the dispatcher attaches its running statistics to "
+        "the events is proved of the dispatcher model (C17_dispatcher_stream_attached) and checked on every tap (attached)",
         "finished <= selected is proved from 'a selected test finishes at most once' (C02), validated on every tap",
-        "XML serialisation (quick-junit / quick-xml escaping) is not modelled beyond XmlString's character filter; "
-        "well-formedness is observed with expat on every produced file",
+        "XML serialisation (quick-xml escaping, attribute quoting) is not modelled beyond the text pipeline xml_safe / "
+        "XmlString::new (stored_text); well-formedness of the file is observed with expat on every produced file",
+        "the stored-text theorem is over Rust strings (scalar values); lossy UTF-8 decoding of captured bytes is C16's",
         "setup-script store flags are read from the configuration when the tap does not report them",
     ]
     return chk.finish(
         gate, checker,
         ["Coq 8.16.1 kernel + vm_compute", "hand-written model Model/Junit.v tied by corr:junit-stream (event tap H1 "
-         "-> model -> JUnit file, RunFinished statistics, summary line, exit status) and corr:xmlstring-filter",
+         "-> model -> JUnit file, RunFinished statistics, summary line, exit status), corr:stored-text (whole stored "
+         "strings vs stored_text) and corr:xmlstring-filter (per character)",
          "lib/e2e.py, e2e/puppet.py (scripted test processes), Python's expat as the XML well-formedness judge",
          "generators / parsers / oracle in props/C17.py"],
         dict(evaluations=chk.counts.get("e2e_runs", 0), distinct_nontrivial=len(distinct),
              rule="one evaluation = one real nextest run (1-10 scripted tests over 1-4 binaries, retries 0-2, four "
-                  "store-flag combinations, fail-fast on/off, optional setup scripts, hostile outputs) whose event tap "
+                  "store-flag combinations, fail-fast on/off, optional setup scripts, hostile outputs, ~12% of the mixed runs "
+                  "cancelled by SIGINT/SIGTERM once or twice at a random point) whose event tap "
                   "is replayed through the Coq model; non-trivial = at least two finished tests and not all of them "
                   "plain single-attempt passes; distinct by (per-test attempt result kinds, store flags, retries, "
                   "fail-fast, script kinds)",
